@@ -628,7 +628,7 @@ func TestVerifC11Msg(t *testing.T) {
 	r := ev.Start(t, "C11")
 	defer r.Finish()
 	vc11Setup()
-	depth := ev.Pick(r, 4, 6)
+	depth := ev.Pick(r, 4, 8)
 	res := mc.Run(r, mc.System{
 		Name: "message-backup-roundtrip", New: vc11NewInst, MaxDepth: depth, KeepGoing: true,
 		Bounds: map[string]any{"channels": 2, "alphabet": "per channel: exact append (uncommitted, commits its predecessors), follower apply (row + HW + epoch point), commit advance by one, retention trim of one more committed row"},
